@@ -25,7 +25,7 @@ def shards(tier):
 
 
 def required_classes(tier):
-    return ["add:generic", "add:P=Q", "add:P=-Q", "add:identity", "multiply:n=0", "multiply:n<0", "multiply:n>=N", "multiply:random",
+    return ["add:generic", "add:P=Q", "add:P=-Q", "add:identity", "multiply:n=0", "multiply:n<0", "multiply:n>=N", "multiply:random", "multiply:hash-colliding", "add:shared-coordinate", "add:hash-colliding",
             "privtopub", "W4:pairs", "W4:scalars", "constants"]
 
 
@@ -79,6 +79,24 @@ def real_curve(rec, s):
         for _ in range(3):
             pairs.append(("add:generic", mdl[a], rng.choice(pts)))
     pairs.append(("add:identity", (0, 0), (0, 0)))
+    # distinct points sharing a coordinate (equal y, x times a cube root of unity) and points whose coordinates / differences are
+    # distinct integers with equal hash() (they differ by a multiple of 2^61 - 1)
+    from . import curvegen as CG
+    beta = CG.cube_root_of_unity(P)
+    mvals = list(mdl.values())
+    for a in range(min(3, len(mvals))):
+        x_, y_ = mvals[a]
+        pairs.append(("add:shared-coordinate", (x_, y_), (x_ * beta % P, y_)))
+        pairs.append(("add:shared-coordinate", (x_ * beta * beta % P, y_), (x_, y_)))
+    A_, B_, C_ = mvals[0], mvals[1], mvals[2]
+    d_ = (B_[0] - A_[0]) % P
+    for k_ in range(1, 60):
+        xd = (C_[0] + d_ + k_ * CG.M61) % P
+        lift = MS.E.lift_x((xd,))
+        if lift and d_ + k_ * CG.M61 < P:
+            pairs.append(("add:hash-colliding", A_, B_))
+            pairs.append(("add:hash-colliding", C_, (lift[0][0][0], lift[0][1][0])))
+            break
     for cls, a, b in pairs:
         i += 1
         if not rec.mine(i):
@@ -88,6 +106,8 @@ def real_curve(rec, s):
         rec.case(cls, ("add", a, b), sample={"fn": "add", "a": a, "b": b})
         call(s.add, a, b)
     # scalars
+    CG_M61 = (1 << 61) - 1
+
     def scalars():
         yield "multiply:n=0", 0
         for n in (1, 2, 3, N - 1):
@@ -96,6 +116,9 @@ def real_curve(rec, s):
             yield "multiply:n>=N", n
         for n in (-1, -2, -N, -N - 1, -N + 1, -(1 << 300) - 3):
             yield "multiply:n<0", n
+        n0 = rng.getrandbits(250)
+        for n in (n0, n0 + CG_M61, n0 + 7 * CG_M61, n0):
+            yield "multiply:hash-colliding", n
         for _ in range(6 if quick else 40):
             yield "multiply:random", rng.getrandbits(rng.choice([64, 255, 256, 257, 384, 512]))
             yield "multiply:n<0", -rng.getrandbits(rng.choice([64, 256, 512]))
